@@ -137,7 +137,7 @@ def run(module, cfg, *, workers=16, timeout=900, simulate=None, depth=None,
             txt = "\n".join(
                 ln for ln in cp.stdout.splitlines()
                 if not ln.startswith(("Parsing file", "Semantic processing",
-                                      "Linting of", "Computed ")))
+                                      "Linting of", "Computed ", '<<"')))
             raise TLCError("TLC failed on %s (rc=%s):\n%s\n%s" % (
                 module, cp.returncode, txt[-3500:], cp.stderr[-1500:]))
         return res
